@@ -1518,13 +1518,20 @@ fn interpolate_string(
 
     let mut last_slot_end = 0;
 
+    // The lexer records slot boundaries as character indices, so we slice
+    // `s` by characters rather than by bytes.
+    let chars: Vec<char> = s.chars().collect();
+    let substr = |start: usize, end: usize| -> String {
+        chars[start .. end].iter().collect()
+    };
+
     for cur_slot in interpolation_slots {
         let (cur_slot_start, cur_slot_end) = cur_slot;
-        result.push(s[last_slot_end .. *cur_slot_start].to_string());
+        result.push(substr(last_slot_end, *cur_slot_start));
 
         // We shorten the slot to skip the delimiters (`${` at the start and
         // `}` at the end).
-        let directive = &s[(cur_slot_start+2) .. (cur_slot_end-1)];
+        let directive = &substr(cur_slot_start+2, cur_slot_end-1);
 
         let slot_col = col + cur_slot_start + 4;
 
@@ -1578,7 +1585,7 @@ fn interpolate_string(
         last_slot_end = *cur_slot_end;
     }
 
-    result.push(s[last_slot_end ..].to_string());
+    result.push(substr(last_slot_end, chars.len()));
 
     Ok(result.join(""))
 }
